@@ -1,12 +1,332 @@
-//! C20 — ops evaluated on the real code and the generator of their inputs.
+//! C20 — `==`, `cmp`, `Hash` and `Clone` of the real representations.
+//!
+//!   eq_pair <repr> [<startA> <opsA>] [<startB> <opsB>] <mut>
+//!     =>  [eq cmp hasheq] OBSA OBSB [ceq ret OBSA' OBSC] [ceq ret OBSB' OBSC']
+//!
+//! Two digraphs of representation `<repr>` are built by two histories (start description +
+//! calls, as in `repr_history`; panicking calls are caught and skipped).  Observed:
+//! `a == b`, `a.cmp(&b)` (`less|equal|greater`), equality of the `DefaultHasher` outputs
+//! (only equality, never the value), `OBS = [order [vertices] [arcs]]` of both;
+//! then clone independence: `c = a.clone()`, `ceq = (c == a)`, the call `<mut>` is applied to
+//! the CLONE (`ret`), and both `a` (must be unchanged) and `c` are observed; for `b` the call
+//! is applied to the ORIGINAL and both `b` and its earlier clone (must be unchanged) are
+//! observed.
 #![allow(unused_imports, dead_code, clippy::all)]
 
+use super::c01::{self, parse_ops, show_arcs, show_ops, HOp, Subject};
 use crate::graphs::{self, Desc};
 use crate::rng::Rng;
 use crate::value::V;
+use crate::with_subject;
+use std::collections::hash_map::DefaultHasher;
+use std::hash::{Hash, Hasher};
 
-pub fn eval(_op: &str, _args: &[V]) -> Option<Vec<V>> {
-    None
+fn obs<D: Subject>(d: &D) -> V {
+    V::L(vec![V::u(d.order_()), V::us(d.verts_()), show_arcs(D::WEIGHTED, &d.arcs_())])
 }
 
-pub fn gen(_rng: &mut Rng, _thorough: bool, _emit: &mut dyn FnMut(String)) {}
+fn hash_of<D: Hash>(d: &D) -> u64 {
+    let mut h = DefaultHasher::new();
+    d.hash(&mut h);
+    h.finish()
+}
+
+fn replay<D: Subject>(d: &mut D, ops: &[HOp]) -> Option<()> {
+    for op in ops {
+        let _ = d.apply(op)?;
+    }
+    Some(())
+}
+
+fn compare<D: Subject>(mut a: D, mut b: D, ops_a: &[HOp], ops_b: &[HOp], m: &HOp) -> Option<Vec<V>> {
+    replay(&mut a, ops_a)?;
+    replay(&mut b, ops_b)?;
+    let cmp = match a.cmp(&b) {
+        std::cmp::Ordering::Less => "less",
+        std::cmp::Ordering::Equal => "equal",
+        std::cmp::Ordering::Greater => "greater",
+    };
+    let mut out = vec![
+        V::L(vec![V::bool(a == b), V::atom(cmp), V::bool(hash_of(&a) == hash_of(&b))]),
+        obs(&a),
+        obs(&b),
+    ];
+    // clone, mutate the clone, the original must not move
+    let mut c = a.clone();
+    let ceq = c == a;
+    let ret = c.apply(m)?;
+    out.push(V::L(vec![V::bool(ceq), ret, obs(&a), obs(&c)]));
+    // clone, mutate the original, the clone must not move
+    let c2 = b.clone();
+    let ceq2 = c2 == b;
+    let ret2 = b.apply(m)?;
+    out.push(V::L(vec![V::bool(ceq2), ret2, obs(&b), obs(&c2)]));
+    Some(out)
+}
+
+/// `[desc ops]` or `[desc ops via]`: with `via` the start digraph is first built in the
+/// representation `via` and then converted with `From` (unweighted, contiguous ids only).
+fn parse_hist(v: &V) -> Option<(Desc, Vec<HOp>, Option<String>)> {
+    let xs = v.as_list()?;
+    match xs.len() {
+        2 => Some((Desc::parse(&xs[0])?, parse_ops(&xs[1])?, None)),
+        3 => Some((Desc::parse(&xs[0])?, parse_ops(&xs[1])?, Some(xs[2].as_atom()?.to_string()))),
+        _ => None,
+    }
+}
+
+macro_rules! build_via {
+    ($desc:expr, $via:expr, $target:ty, $direct:ident) => {{
+        let d: &Desc = $desc;
+        match $via.as_deref() {
+            None => Some(d.$direct()),
+            Some(v) if v == d.repr => Some(d.$direct()),
+            Some("al") => Some(<$target>::from(d.build_al())),
+            Some("am") => Some(<$target>::from(d.build_am())),
+            Some("mx") => Some(<$target>::from(d.build_mx())),
+            Some("el") => Some(<$target>::from(d.build_el())),
+            _ => None,
+        }
+    }};
+}
+
+pub fn eval(op: &str, args: &[V]) -> Option<Vec<V>> {
+    match op {
+        "eq_pair" => {
+            let [repr, ha, hb, m] = args else { return None };
+            let repr = repr.as_atom()?;
+            let (da, oa, va) = parse_hist(ha)?;
+            let (db, ob, vb) = parse_hist(hb)?;
+            let m = HOp::parse(m)?;
+            if da.repr != repr || db.repr != repr {
+                return None;
+            }
+            // `From<Self>` is the identity conversion: same-type `via` is handled in the macro
+            match repr {
+                "al" => compare(
+                    build_via!(&da, va, graaf::AdjacencyList, build_al)?,
+                    build_via!(&db, vb, graaf::AdjacencyList, build_al)?, &oa, &ob, &m),
+                "am" => compare(
+                    build_via!(&da, va, graaf::AdjacencyMap, build_am)?,
+                    build_via!(&db, vb, graaf::AdjacencyMap, build_am)?, &oa, &ob, &m),
+                "mx" => compare(
+                    build_via!(&da, va, graaf::AdjacencyMatrix, build_mx)?,
+                    build_via!(&db, vb, graaf::AdjacencyMatrix, build_mx)?, &oa, &ob, &m),
+                "el" => compare(
+                    build_via!(&da, va, graaf::EdgeList, build_el)?,
+                    build_via!(&db, vb, graaf::EdgeList, build_el)?, &oa, &ob, &m),
+                "wu" if va.is_none() && vb.is_none() => compare(da.build_wu(), db.build_wu(), &oa, &ob, &m),
+                "wi" if va.is_none() && vb.is_none() => compare(da.build_wi(), db.build_wi(), &oa, &ob, &m),
+                _ => None,
+            }
+        }
+        _ => None,
+    }
+}
+
+// ------------------------------------------------------------------------------ generator
+
+fn add_op(repr: &str, u: usize, v: usize, w: i128) -> HOp {
+    if repr == "wu" || repr == "wi" {
+        HOp::AddW(u, v, w)
+    } else {
+        HOp::Add(u, v)
+    }
+}
+
+/// A pair of histories over the same vertex set that CONVERGE to the same digraph: the same
+/// target arc set inserted in two different orders, with detours (add → remove, toggle twice,
+/// weight written twice, rejected calls) that cancel.
+fn gen_converging(rng: &mut Rng, repr: &str) -> ((Desc, Vec<HOp>), (Desc, Vec<HOp>), Vec<(usize, usize)>) {
+    let weighted = repr == "wu" || repr == "wi";
+    let base = if repr == "am" && rng.chance(1, 2) {
+        graphs::gen_am_sparse(rng, 8).1
+    } else if weighted {
+        let (lo, hi) = if repr == "wu" { (0, 5) } else { (-3, 3) };
+        graphs::gen_wdesc(rng, repr, 40, lo, hi).1
+    } else {
+        graphs::gen_desc(rng, repr, 40).1
+    };
+    let ids = base.verts.clone();
+    let n = ids.len();
+    let mk = |rng: &mut Rng| -> (Desc, Vec<HOp>) {
+        // split the target arcs: a random part goes into the start description, the rest is
+        // added by calls in a fresh random order
+        let mut idx: Vec<usize> = (0..base.arcs.len()).collect();
+        rng.shuffle(&mut idx);
+        let cut = rng.below(idx.len() + 1);
+        let mut start = Desc { repr: repr.to_string(), verts: ids.clone(), arcs: vec![], weights: vec![] };
+        for &i in &idx[..cut] {
+            start.arcs.push(base.arcs[i]);
+            start.weights.push(base.weights[i]);
+        }
+        let mut ops = vec![];
+        for &i in &idx[cut..] {
+            let (u, v) = base.arcs[i];
+            let w = base.weights[i];
+            match rng.below(6) {
+                0 => {
+                    // add, remove, add again
+                    ops.push(add_op(repr, u, v, w));
+                    ops.push(HOp::Rem(u, v));
+                    ops.push(add_op(repr, u, v, w));
+                }
+                1 if weighted => {
+                    // another weight first, then the final one
+                    ops.push(add_op(repr, u, v, w + 1));
+                    ops.push(add_op(repr, u, v, w));
+                }
+                1 if repr == "mx" => {
+                    ops.push(HOp::Tog(u, v));
+                }
+                2 if repr == "mx" => {
+                    ops.push(HOp::Add(u, v));
+                    ops.push(HOp::Tog(u, v));
+                    ops.push(HOp::Tog(u, v));
+                }
+                _ => ops.push(add_op(repr, u, v, w)),
+            }
+            // detours on arcs that are NOT in the target: add then remove (no residue allowed)
+            if n >= 2 && rng.chance(1, 4) {
+                let a = ids[rng.below(n)];
+                let b = ids[rng.below(n)];
+                if a != b && !base.arcs.contains(&(a, b)) {
+                    ops.push(add_op(repr, a, b, 1));
+                    ops.push(HOp::Rem(a, b));
+                }
+            }
+            // rejected calls leave no trace
+            if rng.chance(1, 6) && n >= 1 {
+                let a = ids[rng.below(n)];
+                let top = ids.iter().copied().max().map_or(0, |m| m + 1);
+                match rng.below(3) {
+                    0 => ops.push(add_op(repr, a, a, 0)),
+                    // out of range: rejected by every fixed-order representation (the map
+                    // would admit the vertex, so it only gets self-loops)
+                    1 if repr != "am" => ops.push(add_op(repr, top, a, 0)),
+                    2 if repr != "am" => ops.push(add_op(repr, a, top + 1, 0)),
+                    _ => ops.push(add_op(repr, a, a, 0)),
+                }
+                if repr == "mx" && rng.chance(1, 2) {
+                    ops.push(HOp::Tog(top, a));
+                }
+            }
+        }
+        (start, ops)
+    };
+    let a = mk(rng);
+    let b = mk(rng);
+    (a, b, base.arcs.clone())
+}
+
+/// Make `h` differ from what it was in exactly one arc / one weight / one vertex.
+fn perturb(rng: &mut Rng, repr: &str, h: &mut (Desc, Vec<HOp>), target: &[(usize, usize)]) -> &'static str {
+    let weighted = repr == "wu" || repr == "wi";
+    let ids = h.0.verts.clone();
+    let n = ids.len();
+    match rng.below(4) {
+        0 if repr == "am" => {
+            // one more vertex, no arc: add then remove
+            let x = ids.iter().copied().max().map_or(0, |m| m + 1 + rng.below(3));
+            let y = if n > 0 { ids[rng.below(n)] } else { x + 1 };
+            h.1.push(HOp::Add(y, x));
+            h.1.push(HOp::Rem(y, x));
+            "diff-vertex"
+        }
+        0 if repr != "am" && rng.chance(1, 2) => {
+            // one more vertex: same arcs over a larger order
+            let n1 = h.0.verts.len();
+            h.0.verts.push(n1);
+            "diff-vertex"
+        }
+        1 if weighted && !h.0.arcs.is_empty() => {
+            let i = rng.below(h.0.arcs.len());
+            let (u, v) = h.0.arcs[i];
+            // the last write wins: append a write of a different weight, unless the history
+            // removes it again later (it never does: removals only hit detour arcs)
+            h.1.push(HOp::AddW(u, v, h.0.weights[i] + 1 + rng.below(2) as i128));
+            "diff-weight"
+        }
+        _ => {
+            if n < 2 {
+                return "same";
+            }
+            let a = ids[rng.below(n)];
+            let mut b = ids[rng.below(n)];
+            if a == b {
+                b = ids[(ids.iter().position(|&x| x == a).unwrap() + 1) % n];
+            }
+            // flip the arc a -> b at the end of the history: present → removed, absent → added
+            if target.contains(&(a, b)) {
+                h.1.push(HOp::Rem(a, b));
+            } else {
+                h.1.push(add_op(repr, a, b, 4));
+            }
+            "flip"
+        }
+    }
+}
+
+pub fn gen(rng: &mut Rng, thorough: bool, emit: &mut dyn FnMut(String)) {
+    // shortest lines first: the first failing case the orchestrator sees is a small one
+    let mut lines: Vec<String> = vec![];
+    gen_unsorted(rng, thorough, &mut |s| lines.push(s));
+    lines.sort_by_key(String::len);
+    for l in lines {
+        emit(l);
+    }
+}
+
+fn gen_unsorted(rng: &mut Rng, thorough: bool, emit: &mut dyn FnMut(String)) {
+    let per_repr = if thorough { 1700 } else { 100 };
+    for _ in 0..per_repr {
+        for repr in graphs::ALL_REPRS {
+            let (mut a, mut b, target) = gen_converging(rng, repr);
+            if rng.chance(1, 2) {
+                // differ in exactly one arc / weight / vertex; either side
+                if rng.chance(1, 2) {
+                    let _ = perturb(rng, repr, &mut b, &target);
+                } else {
+                    let _ = perturb(rng, repr, &mut a, &target);
+                }
+            }
+            // the mutation used for the clone-independence observation
+            let ids = &a.0.verts;
+            let n = ids.len();
+            let (u, v) = if n >= 2 {
+                let i = rng.below(n);
+                let j = (i + 1 + rng.below(n - 1)) % n;
+                (ids[i], ids[j])
+            } else {
+                (0, 1)
+            };
+            let m = match rng.below(5) {
+                0 | 1 => add_op(repr, u, v, 7),
+                2 | 3 => HOp::Rem(u, v),
+                _ if repr == "mx" => HOp::Tog(u, v),
+                _ => add_op(repr, u, u, 7),
+            };
+            // sometimes one start digraph is built in ANOTHER representation and converted
+            let contiguous = |d: &Desc| d.verts.iter().enumerate().all(|(i, &x)| i == x);
+            let unweighted = repr != "wu" && repr != "wi";
+            let mut via = |rng: &mut Rng, d: &Desc| -> String {
+                if unweighted && contiguous(d) && rng.chance(1, 3) {
+                    let others: Vec<&str> = graphs::UNWEIGHTED.iter().copied().filter(|r| *r != repr).collect();
+                    format!(" {}", rng.pick(&others))
+                } else {
+                    String::new()
+                }
+            };
+            let via_a = via(rng, &a.0);
+            let via_b = via(rng, &b.0);
+            emit(format!(
+                "eq_pair {repr} [{} {}{via_a}] [{} {}{via_b}] {}",
+                a.0.to_v(),
+                show_ops(&a.1),
+                b.0.to_v(),
+                show_ops(&b.1),
+                m.to_v()
+            ));
+        }
+    }
+}
